@@ -33,7 +33,7 @@ Qed.
 Lemma act_inv : forall ty s a, rinv s ->
   match act ty s a with Cont s' => rinv s' | Panic s' _ => rinv s' end.
 Proof.
-  intros ty s a H. destruct a as [v m|v m| |[m|]|e|neg ms|empty v m|v neg idx m|neg idx|p]; cbn [act].
+  intros ty s a H. destruct a as [v m|v m| |[m|]|e|neg ms|empty v m|v neg idx m|neg idx|p|]; cbn [act].
   - destruct ty; try exact H; apply reply_inv; exact H.
   - destruct ty; try exact H; apply reply_inv; exact H.
   - apply reply_inv; exact H.
@@ -44,6 +44,7 @@ Proof.
   - destruct ty; try exact H; destruct empty; try exact H; apply add_ev_inv; exact H.
   - destruct ty; try exact H; destruct neg; try exact H; apply add_ev_inv; exact H.
   - destruct ty; try exact H; destruct neg; try exact H; apply add_ev_inv; exact H.
+  - exact H.
   - exact H.
 Qed.
 
